@@ -832,3 +832,45 @@ def c20_sites(repo_root, tier):
     return {"obligations": obs, "samples": [{"obligation": o["oid"], "backend": "site", "note": o["note"]} for o in obs[:2]],
             "trusted": ["json.dumps / json.loads are inverse on JSON-like values (library contract)", "float(str) is correctly rounded (CPython)"],
             "functions": [], "assumptions": ["replacing \\' by ' in a single-quoted literal preserves the pre-unit structure (no \\\\' can occur inside it)"]}
+
+
+# --------------------------------------------------------------------------- C08
+@register("C08")
+def c08_sites(repo_root, tier):
+    repo = Repo(repo_root)
+    obs = []
+    m = repo.module("liquid2.builtin.tags.extends_tag")
+    fn = m.find("BlockTag.parse") if m else None
+    ok = False
+    if fn is not None:
+        for n in own_nodes(fn):
+            if isinstance(n, ast.If) and ast.unparse(n.test) == "end_block_name != block_name":
+                ok = any(isinstance(x, ast.Raise) and "TemplateInheritanceError" in ast.unparse(x) for x in n.body)
+    _ob(obs, "liquid2.builtin.tags.extends_tag:BlockTag.parse/site.endblock-name", ok, "an `endblock <name>` that differs from the block's name raises TemplateInheritanceError")
+    # StopRender ends the child after the base has rendered: only Template.render_with_context[_async] catches it, by `break`
+    tm = repo.module("liquid2.template")
+    for name in ("render_with_context", "render_with_context_async"):
+        fn = tm.find(f"Template.{name}") if tm else None
+        ok = False
+        if fn is not None:
+            for n in ast.walk(fn):
+                if isinstance(n, ast.ExceptHandler) and n.type is not None and ast.unparse(n.type) == "StopRender":
+                    ok = len(n.body) == 1 and isinstance(n.body[0], ast.Break)
+        _ob(obs, f"liquid2.template:Template.{name}/site.stop-render", ok, "StopRender stops the rendering of the remaining nodes of the (child) template and nothing else")
+    catchers = []
+    for mm, qual, cls, fn2, parent in _all_functions(repo):
+        for n in own_nodes(fn2):
+            if isinstance(n, ast.ExceptHandler) and n.type is not None and "StopRender" in ast.unparse(n.type):
+                catchers.append(f"{mm.name}:{qual}")
+    _ob(obs, "liquid2/site.stop-render-catchers", sorted(catchers) == ["liquid2.template:Template.render_with_context", "liquid2.template:Template.render_with_context_async"],
+        f"StopRender is caught only by {sorted(catchers)}")
+    # the exception classes are inheritance errors
+    em = repo.module("liquid2.exceptions")
+    for cname, base in (("TemplateInheritanceError", "LiquidError"), ("RequiredBlockError", "TemplateInheritanceError")):
+        c = em.classes.get(cname) if em else None
+        ok = c is not None and base in class_bases(repo, em, cname)
+        _ob(obs, f"liquid2.exceptions:{cname}/site.class", ok, f"{cname} derives from {base}")
+    return {"obligations": obs, "samples": [], "trusted": [], "functions": [],
+            "assumptions": ["composition (argued, DESIGN Appendix B): the walk pushes the definitions leaf first, so index 0 of a stack is the most-derived definition and `parent` links lead towards the base",
+                            "_store_blocks is proved for templates with one and with two blocks (loop unrolled); block names are distinct per template (proved in _stack_blocks)"],
+            "not_covered": ["text outside blocks in child templates is discarded: follows from StopRender (proved) and Template.render_with_context (site)"]}
